@@ -8,6 +8,7 @@ import (
 	"time"
 
 	"github.com/failsafe-go/failsafe-go/verifrt/vrt"
+	"github.com/failsafe-go/failsafe-go/verifrt/vsync"
 )
 
 func WithCancel(parent context.Context) (context.Context, context.CancelFunc) {
@@ -49,7 +50,7 @@ type deadlineCtx struct {
 }
 
 func (c *deadlineCtx) Deadline() (time.Time, bool) { return c.deadline, true }
-func (c *deadlineCtx) Done() <-chan struct{}      { return c.done }
+func (c *deadlineCtx) Done() <-chan struct{}       { return c.done }
 func (c *deadlineCtx) Err() error {
 	c.mu.Lock()
 	defer c.mu.Unlock()
@@ -141,22 +142,35 @@ func WithTimeoutCause(parent context.Context, timeout time.Duration, cause error
 }
 
 // AfterFunc runs f as a library thread once ctx is done (the standard library uses a goroutine too).
+// No scheduling point is ever reached while a real lock is held.
 func AfterFunc(ctx context.Context, f func()) (stop func() bool) {
 	stopped := make(chan struct{})
-	var once sync.Once
+	var mu vsync.Mutex
+	state := 0 // 0 pending, 1 running/ran, 2 stopped
 	vrt.Go(func() {
 		switch vrt.Select(false, vrt.R(ctx.Done()), vrt.R(stopped)) {
 		case 0:
-			ran := false
-			once.Do(func() { ran = true })
-			if ran {
+			mu.Lock()
+			run := state == 0
+			if run {
+				state = 1
+			}
+			mu.Unlock()
+			if run {
 				f()
 			}
 		}
 	})
 	return func() bool {
-		did := false
-		once.Do(func() { did = true; vrt.Point("close"); close(stopped) })
+		mu.Lock()
+		did := state == 0
+		if did {
+			state = 2
+		}
+		mu.Unlock()
+		if did {
+			vrt.Close(stopped)
+		}
 		return did
 	}
 }
